@@ -395,24 +395,28 @@ def runOf (S : Nat → Bool) (text : List Nat) (start maxRepeat : Nat) : Nat →
     if decide (e < text.length) && decide (e - start < maxRepeat) && memAt S text e then runOf S text start maxRepeat fuel (e + 1)
     else e
 
+/-- the core of `requiredLandmarkAlternativeMatch`: where the literal, or the greedy run of the set (at most
+    `MaxRepeat`, at least `MinRepeat` characters), ends -/
+def lmCore (text : List Nat) (start : Nat) (alt : LmAlt) : Option Nat :=
+  let n := text.length
+  if !alt.literal.isEmpty then
+    if decide (n < start + alt.literal.length) || !occursAt eqExact alt.literal text start then none
+    else some (start + alt.literal.length)
+  else match alt.set with
+    | some S =>
+      if 0 < alt.minRepeat then
+        let maxRepeat := if alt.maxRepeat ≤ 0 then alt.minRepeat else alt.maxRepeat.toNat
+        let e := runOf S text start maxRepeat (n + 1) start
+        if e - start < alt.minRepeat then none else some e
+      else none
+    | none => none
+
 /-- `requiredLandmarkAlternativeMatch(input, start, len(input), alt)` -/
 def lmAltMatch (text : List Nat) (start : Nat) (alt : LmAlt) : Option LmMatch :=
   let n := text.length
   if alt.reqBefore && (decide (start = 0) || !optMemAt alt.leadWs text (start - 1)) then none
   else
-    let core : Option Nat :=
-      if !alt.literal.isEmpty then
-        if decide (n < start + alt.literal.length) || !occursAt eqExact alt.literal text start then none
-        else some (start + alt.literal.length)
-      else match alt.set with
-        | some S =>
-          if 0 < alt.minRepeat then
-            let maxRepeat := if alt.maxRepeat ≤ 0 then alt.minRepeat else alt.maxRepeat.toNat
-            let e := runOf S text start maxRepeat (n + 1) start
-            if e - start < alt.minRepeat then none else some e
-          else none
-        | none => none
-    match core with
+    match lmCore text start alt with
     | none => none
     | some e =>
       if alt.reqAfter && (decide (n ≤ e) || !optMemAt alt.trailWs text e) then none
